@@ -383,7 +383,7 @@ theorem run_np (lexErr : Option Nat) (ts : List Token) :
                     simp at hnil
             unfold Builder.closeImmediate
             split
-            · exact leave_np (b := { b1 with nsStack := b1.nsStack.tail }) ⟨ho.eb, ho.opens, ho.top⟩ hne hok1.2.2.1 sp
+            · exact leave_np (b := { b1 with nsStack := b1.nsStack.tail, openPrefixes := b1.openPrefixes.tail }) ⟨ho.eb, ho.opens, ho.top⟩ hne hok1.2.2.1 sp
             · exact leave_np ho hne hok1.2.2.1 sp
       | close p l =>
         cases inTag with
@@ -406,7 +406,7 @@ theorem run_np (lexErr : Option Nat) (ts : List Token) :
               split
               · split
                 · trivial
-                · exact leave_np (b := { b with env := env1, nsStack := b.nsStack.tail })
+                · exact leave_np (b := { b with env := env1, nsStack := b.nsStack.tail, openPrefixes := b.openPrefixes.tail })
                     ⟨h.eb, h.opens, h.top⟩ hne hok.2.2.1 sp
               · exact leave_np (b := { b with env := env1 }) ⟨h.eb, h.opens, h.top⟩ hne hok.2.2.1 sp
     | text t =>
